@@ -1227,7 +1227,7 @@ var _ = index.ItemNotFoundError
 // pair of points).  The event carries the bits asked for and the bits stored afterwards.
 func nearUpdate(d *driver, hid int, rng *rand.Rand) map[string]interface{} {
 	sm := storage.NewVerifPartitionSM(d.cfg.Index.New(d.u))
-	ev := map[string]interface{}{"ev": "near", "hid": hid, "want": []string{}, "got": []string{}, "err": ""}
+	ev := map[string]interface{}{"ev": "near", "hid": hid, "want": []string{}, "got": []string{}, "err": "", "cwant": []string{}, "cgot": []string{}}
 	defer func() {
 		if r := recover(); r != nil {
 			ev["err"] = fmt.Sprint("panic: ", r)
@@ -1269,5 +1269,31 @@ func nearUpdate(d *driver, hid int, rng *rand.Rand) map[string]interface{} {
 		}
 	}
 	ev["want"], ev["got"] = want, got
+	// C07 clause 1 on the same small index: a search whose context is already cancelled returns what an undisturbed
+	// search returns, or an error - never a shorter list without one
+	ids := func(r index.SearchResult, err error) []string {
+		if err != nil {
+			return []string{"err"}
+		}
+		out := []string{}
+		for _, it := range r {
+			out = append(out, it.Id.String()[:8]+fmt.Sprintf("%.3f", it.Score))
+		}
+		return out
+	}
+	// (an index of its own with TWO items, each the other's only possible neighbour: whatever the link budgets and the
+	// selection mode, an undisturbed search finds both, in the same order every time)
+	sm2 := storage.NewVerifPartitionSM(d.cfg.Index.New(d.u))
+	for k := 1; k <= 2; k++ {
+		sm2.Apply(&pb.PartitionChange{Type: pb.PartitionChangeType_PartitionChangeInsertValue, Id: hx.Uid(k).Bytes(), Value: append(amath.Vector{}, d.u.Vecs[k-1]...)})
+	}
+	cctx, cancel := context.WithCancel(context.Background())
+	cancel()
+	w1 := ids(sm2.Index().Search(context.Background(), d.u.Vecs[0], 2))
+	w2 := ids(sm2.Index().Search(context.Background(), d.u.Vecs[0], 2))
+	if len(w1) == 2 && fmt.Sprint(w1) == fmt.Sprint(w2) {
+		ev["cwant"] = w1
+		ev["cgot"] = ids(sm2.Index().Search(cctx, d.u.Vecs[0], 2))
+	}
 	return ev
 }
